@@ -114,6 +114,16 @@ func H_C07_wide() {
 	vAssert(vSameMultiset(got2, bvals), "wide: every map entry returned once beyond the initial capacity")
 	got3, _ := Map(m).ValuesForPath("r[0].a[" + m_strconv_Itoa(n-1) + "]")
 	vAssert(len(got3) == 1 && vSame(got3[0], l[n-1]), "wide: indexed access to the last member")
+	// two parents: the second expansion crosses the capacity with values already collected
+	half := make([]interface{}, 20)
+	for i := range half {
+		half[i] = vNondetString(1, 1, "xy")
+	}
+	two := Map{"p": []interface{}{map[string]interface{}{"a": half}, map[string]interface{}{"a": l}}}
+	got5, err5 := two.ValuesForPath("p.a")
+	vAssert(err5 == nil && vSameList(got5, append(append([]interface{}{}, half...), l...)), "wide: values of several parents are all returned in order when the total crosses the initial capacity")
+	got6, _ := two.ValuesForPath("p.*")
+	vAssert(vSameMultiset(got6, append(append([]interface{}{}, half...), l...)), "wide: the same through a wildcard")
 	got4, err4 := Map(inner).ValuesForPath("a[" + m_strconv_Itoa(n) + "]")
 	vAssert(err4 == nil && len(got4) == 0, "wide: an index one past the end yields nothing")
 	vCover("wide")
